@@ -189,3 +189,59 @@ func c10HeldOpen(r *fw.Run, g *Rig, tr string) {
 	}
 	g.Log.Take()
 }
+
+// c10SlowWriters: clients that pause for seconds in the middle of a frame (and between frames); however long the pause,
+// the complete frame is answered. The connections run at the same time, so the cost is the longest pause.
+func c10SlowWriters(r *fw.Run, g *Rig, tr string, pauses []time.Duration) {
+	type res struct {
+		pause time.Duration
+		got   []byte
+		err   error
+	}
+	ch := make(chan res, len(pauses))
+	frame := []byte("{\"method\":\"org.varlink.service.GetInfo\"}\x00")
+	for i, d := range pauses {
+		go func(i int, d time.Duration) {
+			c, _, err := dialRaw(g.Net, g.Dial)
+			if err != nil {
+				ch <- res{d, nil, err}
+				return
+			}
+			defer c.Close()
+			c.SetDeadline(time.Now().Add(d + 30*time.Second))
+			cut := 5 + i*7%len(frame)
+			if cut >= len(frame) {
+				cut = len(frame) / 2
+			}
+			var got []byte
+			for round := 0; round < 2; round++ {
+				c.Write(frame[:cut])
+				time.Sleep(d)
+				c.Write(frame[cut:])
+				buf := make([]byte, 4096)
+				for {
+					n, err := c.Read(buf)
+					got = append(got, buf[:n]...)
+					if err != nil {
+						ch <- res{d, got, err}
+						return
+					}
+					if n > 0 && buf[n-1] == 0 {
+						break
+					}
+				}
+			}
+			ch <- res{d, got, nil}
+		}(i, d)
+	}
+	for range pauses {
+		x := <-ch
+		frames, rest := splitFrames(x.got)
+		if x.err != nil || len(frames) != 2 || len(rest) != 0 || !strings.Contains(string(frames[0]), "interfaces") || !strings.Contains(string(frames[1]), "interfaces") {
+			r.Violation("C10 wellformed-call-not-answered", fmt.Sprintf("transport %s: a client paused %v in the middle of each of two GetInfo frames; it got %d reply frames (%q), %v", tr, x.pause, len(frames), clip(string(x.got), 120), x.err),
+				map[string]interface{}{"what": "slow writer", "pause_ms": x.pause.Milliseconds()})
+		}
+		r.Count("slow_writer_connections", 1)
+	}
+	g.Log.Take()
+}
